@@ -27,6 +27,8 @@ def run(ctx):
     ctx.run_rule("RF", r_spec.rule_ref_flags, ["refimpl"])
     ctx.run_rule("RM", r_spec.rule_ref_merge, ["refimpl"])
     ctx.run_rule("RL", r_spec.rule_ref_lazy_chunk, ["refimpl"])
+    import r_state
+    ctx.run_rule("ZP", r_state.rule_ZP, ["refimpl"])
     try:
         import r_round
         ctx.run_rule("R1r", r_round.rule_R1_refimpl, ["refimpl"])
